@@ -259,7 +259,8 @@ impl RepositoryExtended for gix::Repository {
                 author: author.to_owned(),
                 committer: committer.to_owned(),
                 encoding: commit_encoding.map(|enc| enc.name().into()),
-                message: message.raw_bytes().into(),
+                // N.B. the message may come from a commit with another declared encoding.
+                message: message.encode_with(commit_encoding)?.as_ref().into(),
                 extra_headers: vec![],
             })?;
             Ok(commit_id.detach())
